@@ -181,10 +181,10 @@ func (b *docBuilder) witness(steps []Step, leaf func() *DNode) *DNode {
 		for i := range s.Sub {
 			if s.Sub[i].Kind == KIndex {
 				ix := s.Sub[i].N
-				if ix >= 0 && ix < 8 && ix >= n && g.chance("fit", 80) {
-					n = ix + 1
+				if ix >= 0 && ix < 14 && ix >= n && g.chance("fit", 80) {
+					n = ix + 1 + g.intn("slack", 3)
 				}
-				if ix < 0 && ix > -8 && -ix > n && g.chance("fit", 80) {
+				if ix < 0 && ix > -14 && -ix > n && g.chance("fit", 80) {
 					n = -ix
 				}
 			}
